@@ -330,7 +330,11 @@ def run_check(modname, argv):
             if exit_code == 0:
                 exit_code = 2
     for e in errors:
-        lines.append("HARNESS-ERROR property=%s %s" % (prop, (e["error"] or "")[-1500:]))
+        msg = e["error"] or ""
+        if len(msg) > 2400:
+            # keep the exception itself (Hypothesis appends the whole falsifying example as a note)
+            msg = msg[:1700] + "\n...\n" + msg[-600:]
+        lines.append("HARNESS-ERROR property=%s %s" % (prop, msg))
         if exit_code == 0:
             exit_code = 2
 
